@@ -36,6 +36,8 @@ def run(ctx, ss):
     # C03.9: nothing on the way from the observed entry points is memoised on a parser / tree / path / container (shared.py)
     from .shared import memo_for
     ctx.guard("C03.9", memo_for, ss, "C03", "C03.9", "a conjugated table")
+    from .shared import reading_path
+    ctx.guard("C03.9", reading_path, ss, "C03.9", ["DecFileParser._add_charge_conjugate_decays"], "a conjugated table")
 
 
 def c03_1(ctx, ss):
